@@ -172,8 +172,23 @@ impl Run<'_> {
                     AnyReader::Sample(r) => sample_op(r, name, op, self.pcm, self.log_data, &mut avail, t),
                     AnyReader::Channel(r) => channel_op(r, name, op, self.pcm, self.cfg.channels as usize, &mut avail, t),
                 });
+                let mut probe = matches!(r, Ok(true)) && name != "fill";
                 if let Err(c) = r {
                     t.emit(panic_event(name, &c));
+                    probe = false;
+                }
+                if probe {
+                    // observe what the reader hands out next: a position-changing call is only as good as the data that follows it
+                    let fill = json!({"op": "fill"});
+                    let r2 = catch(|| match &mut fork {
+                        AnyReader::ByteLe(r) => byte_op(r, "fill", &fill, &ref_bytes, self.log_data, &mut avail, t),
+                        AnyReader::ByteBe(r) => byte_op(r, "fill", &fill, &ref_bytes, self.log_data, &mut avail, t),
+                        AnyReader::Sample(r) => sample_op(r, "fill", &fill, self.pcm, self.log_data, &mut avail, t),
+                        AnyReader::Channel(r) => channel_op(r, "fill", &fill, self.pcm, self.cfg.channels as usize, &mut avail, t),
+                    });
+                    if let Err(c) = r2 {
+                        t.emit(panic_event("fill", &c));
+                    }
                 }
                 t.emit(json!({"ev": "pop"}));
             }
